@@ -122,6 +122,7 @@ func (c02) Generate(r *rand.Rand, t string) []*Case {
 		out = append(out, &Case{Hist: h, Stream: stream, NonTrivial: true,
 			Meta: map[string]interface{}{"badlit": bad}, Tags: tags})
 	}
+	out = append(out, c02SharedStream(r, t)...) // drawn last: the older streams' draws are unchanged
 	return out
 }
 
